@@ -102,6 +102,14 @@ def managed_provide_cache(provide_id: str) -> Generator[None, None, None]:
         elif provide_id not in provide_references and provide_id in provide_cache:
             provide_cache.pop(provide_id)
 
+    # The provided data must stay available for as long as the body of `{% provide %}`
+    # is being rendered. Components at the root of the page finish their (deferred) render
+    # - and drop their reference - before their siblings are reached, so the body itself
+    # holds a reference until it is done.
+    body_reference_id = f"{provide_id}:body"
+    all_reference_ids.add(body_reference_id)
+    provide_references.setdefault(provide_id, set()).add(body_reference_id)
+
     try:
         yield
     except Exception as e:
@@ -117,6 +125,7 @@ def managed_provide_cache(provide_id: str) -> Generator[None, None, None]:
         raise e from None
 
     # Cleanup
+    unregister_provide_reference(body_reference_id)
     cache_cleanup()
 
 
